@@ -242,6 +242,8 @@ func init() {
 		rulePoolSwap(r)
 		ruleLookupBothPools(r)
 		rulePublishedBytes(r)
+		rulePoolValuesFresh(r)
+		ruleIndexNamesNewLocation(r)
 		ruleBucketAfterWrite(r)
 		ruleKeyCheck(r)
 		la, rt := runLockAnalysis(r, "race-fg-fl")
